@@ -1500,36 +1500,26 @@ func (r *RigS) taskSelecting(tgt int, c *SColl) string {
 	return owner
 }
 
-// barrierSplitByStop: the shards' drop messages of a partition were delivered on both sides of a stop of the task (an
-// operator pause, or the end of an incarnation): some shard delivered its message before the stop and never again after it
-// (its checkpoint had passed the message), while another shard had not delivered its message before the stop. The barrier
-// that counted the first shard was closed by the stop; the barrier set up afterwards waits for that shard in vain.
-func (r *RigS) barrierSplitByStop(owner string, tgt int, c *SColl, pid int64) bool {
+// barrierSignalLostAtStop: some shard delivered the drop message of the partition / collection only before a stop of the task (an
+// operator pause, or the end of an incarnation) was complete and never again after it: its checkpoint had passed the
+// message. The barrier that counted that shard was closed by the stop (before it could issue the request: other shards
+// missing, or its request waiting in front of a full event queue); the barrier set up afterwards waits for that shard in vain.
+func (r *RigS) barrierSignalLostAtStop(owner string, tgt int, c *SColl, suffix string) bool {
 	before := func(a, b [2]int) bool { return a[0] < b[0] || (a[0] == b[0] && a[1] < b[1]) }
-	type stop struct{ from, to [2]int } // the stop took effect somewhere between these two points
-	var stops []stop
+	var stops [][2]int // the points at which a stop was complete
 	for inc := 1; inc <= r.plan.Incarnation; inc++ {
-		stops = append(stops, stop{[2]int{inc, -1}, [2]int{inc, -1}})
+		stops = append(stops, [2]int{inc, -1})
 	}
 	for _, o := range r.st.OpLog {
 		if o.K == "pause" && o.Task == owner && o.Code == 200 {
-			stops = append(stops, stop{[2]int{o.Inc, o.Issued}, [2]int{o.Inc, o.Step}})
+			stops = append(stops, [2]int{o.Inc, o.Step})
 		}
 	}
 	for _, t := range stops {
-		early, late := false, false
 		for sh := 0; sh < c.Shard; sh++ {
-			k := fmt.Sprintf("%d|%d|%d|p%d", tgt, c.ID, sh, pid)
-			last, have := r.st.DropSeenLast[k]
-			if have && before(last, t.to) {
-				early = true // every delivery of this shard's message came before the stop was complete
+			if last, have := r.st.DropSeenLast[fmt.Sprintf("%d|%d|%d%s", tgt, c.ID, sh, suffix)]; have && before(last, t) {
+				return true
 			}
-			if !have || !before(last, t.from) {
-				late = true // this shard delivers its message (again) after the stop began
-			}
-		}
-		if early && late {
-			return true
 		}
 	}
 	return false
@@ -1661,6 +1651,9 @@ func (r *RigS) checkDrops(tasks map[string]*meta.TaskInfo, sn server.VerifSnapsh
 				// paused; the event loop threw it away as a left-over of a task that is not running
 				cls = "_request_discarded_at_pause"
 			}
+			if cls == "" && r.barrierSignalLostAtStop(owner, tgt, c, "") {
+				cls = "_barrier_signal_lost_at_stop"
+			}
 			s.Probe("S_drop_liveness_checked")
 			if r.st.SDK[tgt].Colls[c.DB+"/"+c.Name] != nil {
 				s.Violate("C04", "S_drop_missing"+cls, "downstream %d: collection %s (%d) is dropped at the source (drop message published on every shard), its task %s is Running and idle, but the collection still exists downstream (%d drop request(s) so far)", tgt, c.Name, c.ID, owner, len(reqs))
@@ -1768,8 +1761,8 @@ func (r *RigS) checkPartitionDrops(tasks map[string]*meta.TaskInfo, sn server.Ve
 				if _, ok := r.st.Discarded[fmt.Sprintf("%s|DropPartition|%d|%d", owner, c.ID, pid)]; ok {
 					cls = "_request_discarded_at_pause"
 				}
-				if cls == "" && r.barrierSplitByStop(owner, tgt, c, pid) {
-					cls = "_barrier_split_by_stop"
+				if cls == "" && r.barrierSignalLostAtStop(owner, tgt, c, fmt.Sprintf("|p%d", pid)) {
+					cls = "_barrier_signal_lost_at_stop"
 				}
 				s.Probe("S_partition_drop_liveness_checked")
 				if dc := r.st.SDK[tgt].Colls[c.DB+"/"+c.Name]; dc != nil && dc.Parts[pname] != nil {
